@@ -52,12 +52,15 @@ FINISH = dict(level="proof",
                    "reference points weakly above all points; "
                    "a case is non-trivial if it has >= 3 points and (for sort/hv) at least one tie or dominated pair; distinct = distinct op text")
 
-LAKE_TARGETS = ["SharkVerif.Props.C13", "drv_c13"]   # Props imports Lemmas/{FastSort,Hypervolume,HV3D,Contrib,DCFront,Subset2D,RatLift,Contrib3DE,HOY}
+LAKE_TARGETS = ["SharkVerif.Props.C13", "SharkVerif.Props.C13Tol", "drv_c13"]   # Props imports Lemmas/{FastSort,Hypervolume,HV3D,Contrib,DCFront,Subset2D,RatLift,Contrib3DE,HOY}
 REPO_SOURCES = ["src/Core/Random.cpp"]
 
 
 def translate(ctx):
-    return ctx.translate("ssp_point_less.py")
+    a = ctx.translate("ssp_point_less.py")
+    # tolerance inventory of the anchored files -> Gen/C13Tolerances.lean (obligation Props/C13Tol.lean)
+    b = ctx.translate("c13_tolerances.py")
+    return a and b
 
 
 def build(ctx):
@@ -107,6 +110,26 @@ def width_for(r, m, big=False):
 
 
 def flat(P): return " ".join(str(c) for p in P for c in p)
+
+
+def is_tok(t):
+    """q<den> (coordinates divided by den) or e<k> (coordinates multiplied by 2^k, k may be negative)"""
+    return len(t) > 1 and ((t[0] == "q" and t[1:].isdigit()) or (t[0] == "e" and re.fullmatch(r"-?\d+", t[1:]) is not None))
+
+
+# scale classes 2^e applied to points AND reference (power-of-two scaling: every comparison, difference and product in the
+# algorithms stays exact, no over-/underflow for |e| <= 60, m <= 6, |coordinate| < 2^53). Expected line = the unscaled line
+# (ranks / indices identical, volumes times 2^(e*m): rankSpec_scale, hvSpec_scale_shift, hvQ_scale)
+SCALES = [-60, -52, -44, -34, -24, -16, -14, -12, -10, -4, -1, 1, 4, 10, 24, 34, 44, 60]
+# HypervolumeSubsetSelection2D::upperEnvelope contains the absolute tolerances 1e-10 (regenerated: Gen/C13Tolerances.lean) on
+# intersections (unit: objective) and on partial hypervolumes (unit: objective^2).  On integer grids with offsets from the
+# reference below 250 two different intersections differ by >= 2^e/250^2 and two different areas by >= 4^e, so the unchanged
+# code is exact iff 4^e > 1e-10, i.e. e >= -16; below that it returns sub-optimal subsets (finding C13-SSP-ABSTOL)
+SSP_MIN_SCALE = -16
+
+
+def scales_for(kind):
+    return [e for e in SCALES if kind != "ssp" or e >= SSP_MIN_SCALE]
 
 
 def gen_case(r, kind, nmax, ctx):
@@ -263,7 +286,7 @@ def prefix_family(r, line, ctx):
 # ----------------------------------------------------- shrinking of one op line
 def parse_line(line):
     t = line.split()
-    if t and t[0][0] == "q" and t[0][1:].isdigit():
+    if t and is_tok(t[0]):
         d = parse_line(" ".join(t[1:]))
         if d is not None: d["q"] = t[0]
         return d
@@ -315,8 +338,12 @@ def shrink_line(line, fails, budget=150):
 
 def classify(ops, res):
     op = ops[0].split()
-    if op[0][0] == "q" and op[0][1:].isdigit(): op = op[1:]
-    tag = op[0] + (":" + op[1] + ":" + op[2] if op[0] == "con" else "") + (":m" + op[1] if op[0] in ("sort", "hv") else "")
+    scale = ""
+    if is_tok(op[0]):
+        # scale class in the key: a defect that only shows at some scales is not the same finding as one at scale 1
+        if op[0][0] == "e": scale = "@2^" + op[0][1:]
+        op = op[1:]
+    tag = op[0] + (":" + op[1] + ":" + op[2] if op[0] == "con" else "") + (":m" + op[1] if op[0] in ("sort", "hv") else "") + scale
     if res.crash and op[0] == "ssp" and "HypervolumeSubsetSelection2D::Point" in res.stderr and \
             re.search(r"std::__(unguarded_partition|introsort_loop|insertion_sort|unguarded_linear_insert)", res.stderr):
         d = parse_line(ops[0])
@@ -406,9 +433,9 @@ def run(ctx):
                         "the reference point is weakly dominated by every point (C++ documented precondition)",
                         "contribution queries: mutually non-dominated sets (duplicates allowed), 0 <= k <= n; subset selection: 1 <= k <= number of distinct non-dominated points"]
     translate(ctx)
-    ctx.prove(["SharkVerif.Props.C13"])
+    ctx.prove(["SharkVerif.Props.C13", "SharkVerif.Props.C13Tol"])
     if not ctx.quick:
-        ctx.leanchecker(["SharkVerif.Props.C13"])
+        ctx.leanchecker(["SharkVerif.Props.C13", "SharkVerif.Props.C13Tol"])
     exe = build(ctx)
     drv = ctx.driver("drv_c13")
     if not exe or not drv:
@@ -419,6 +446,7 @@ def run(ctx):
     plan = dict(dom=60, sort=260, hv=260, con=200, ssp=120, hoys=160, dca=100, dcb=140) if ctx.quick else \
         dict(dom=300, sort=1500, hv=1500, con=1200, ssp=700, hoys=1200, dca=600, dcb=900)
     fam = {"sort": 0, "hv": 0, "con": 0}
+    SCALED = ("dom", "sort", "hv", "con", "ssp"); sfam = {k: 0 for k in SCALED}
     for kind, cnt in plan.items():
         for i in range(cnt):
             nmax = 40 if ctx.quick else (300 if (kind == "sort" and i % 6 == 0) else 60)
@@ -426,6 +454,14 @@ def run(ctx):
             if kind in ("dom", "sort", "hv", "con", "ssp") and r.chance(1, 5) and not (kind == "sort" and "2243003" in l or "1125899" in l):
                 # dyadic rational coordinates: the C++ gets every coordinate divided by a power of two
                 l = f"q{r.choice([2, 4, 8, 64])} " + l; ctx.hist("rational_coordinates", kind)
+            elif kind in SCALED and r.chance(1, 4):
+                e = r.choice(scales_for(kind)) if r.chance(2, 3) else r.range(SSP_MIN_SCALE if kind == "ssp" else -60, 60)
+                l = f"e{e} " + l; ctx.hist("scale_class_random", f"{kind}:{'neg' if e < 0 else 'pos'}")
+            elif kind in SCALED and sfam[kind] < (6 if ctx.quick else 30) and len(l) < 700 and (kind == "dom" or nontrivial(l)):
+                # scale family: the same op at EVERY scale class (and unscaled)
+                sfam[kind] += 1
+                for e in scales_for(kind):
+                    lines.append(f"e{e} " + l); ctx.hist("scale_family", f"{kind}:2^{e}")
             lines.append(l)
             # prefix families (intermediate states of the sweeps): 3-/4-objective hypervolume, 3-D contributions, sorts
             if kind in fam and fam[kind] < (12 if ctx.quick else 60):
@@ -437,7 +473,7 @@ def run(ctx):
         # third arm of the switch: n > 5000 goes back to the divide-and-conquer sort
         P = gen_points(r, 3, 5003, 9, 0, "mix")
         lines.append(f"sort 3 5003 {flat(P)}"); ctx.hist("sort_nds_uses", "dc(n>5000)")
-    for l in lines: ctx.hist("op_mix", [t for t in l.split() if not (t[0] == "q" and t[1:].isdigit())][0])
+    for l in lines: ctx.hist("op_mix", [t for t in l.split() if not is_tok(t)][0])
     ctx.cov["evaluations"] = len(lines)
     ctx.cov["distinct_nontrivial"] = len({l for l in lines if nontrivial(l)})
     ctx.sample({"op": lines[len(lines) // 2][:200]})
